@@ -39,7 +39,27 @@ def is_payload_size(t, spec):
 
 
 def slice_of(t):
-    """decode Index::index(base, range) -> (base tree, kind, lo, hi) else None"""
+    """decode Index::index(base, range) -> (base tree, kind, lo, hi) else None; a slice of a slice is composed:
+    x[..b][a..] = x[a..b], x[a..][..n] = x[a..a+n]"""
+    r = _slice_of1(t)
+    if r is None:
+        return None
+    base, kind, lo, hi = r
+    inner = _slice_of1(base)
+    if inner is not None:
+        b0, k0, lo0, hi0 = inner
+        if k0 == "to" and kind == "from":
+            return (b0, "range", lo, hi0)
+        if k0 == "from" and kind == "to":
+            return (b0, "range", lo0, ("binop", "Add", lo0, hi))
+        if k0 == "full":
+            return (b0, kind, lo, hi)
+        if kind == "full":
+            return (b0, k0, lo0, hi0)
+    return r
+
+
+def _slice_of1(t):
     t = strip(t)
     # x.split_at(n).0 == x[..n], x.split_at(n).1 == x[n..]  (also split_at_mut)
     if t[0] == "field" and t[2] in ("0", "1"):
